@@ -9,6 +9,8 @@ def run(chk):
     r02_store(chk)
     textrules.r01_esc(chk, rule="R02-esc")
     textrules.r01_hex(chk, rule="R02-hex")
+    from . import writertab
+    writertab.compare(chk, "R02-writer", floor=54)
     chk.assumptions += ["not decided: token-sequence equality of output and input as such"]
 
 
